@@ -81,7 +81,7 @@ PROPS = {
         "oracle_engine": {"gcmformat": "stream"},
         "trusted": [SYMBOLIC_CRYPTO, "refcodec: independent implementation of the documented frame format (same Go crypto primitives)"],
         "technique": "Lean 4 theorems (wire format by unfolding; nonce distinctness by invariant over arbitrary operation histories) + translation validation against an independent reference codec in both directions",
-        "level_text": "wire_format, first_aad_digests, nonce_sequence / nonces_distinct (any interleaving of sends, buffered writes, secrets, crypto toggles and receives; imported counters), refuses_wrap, iv_once, lost_frame_nonce_not_reused (a frame whose socket write failed has consumed its counter value): kernel-checked over the model. ref_accepts_impl / impl_accepts_ref are discharged by the gcmformat engine: every frame real streams emit is opened by refcodec, refcodec-built frames are fed to the real receiver, counters near 2^32 via NewStreamWithCryptoState driven to the limit through every sending API (SendMessage, SendPartialMessage, WriteMessage flush, EndMessage, PutSecret, typed FlushFrame/FinishMessage) with the refusal judged on the bytes written to the connection; socket write failures (timeout / error / short write after every k bytes of a frame, through every sending API, first and later frames, keyed and imported sessions) followed by further sends, judged by refcodec on the bytes that reached the connection: later frames open at the next counter values, never under a consumed one, IV never announced again; IV freshness as an oracle on the implementation: base IVs of all key installations pairwise distinct also in their last 12 bytes, every byte position varying, every (key, 16-byte nonce) pair of the run used once across endpoints, directions, sessions and hand-offs.",
+        "level_text": "wire_format, first_aad_digests, nonce_sequence / nonces_distinct (any interleaving of sends, buffered writes, secrets, crypto toggles and receives; imported counters), refuses_wrap, iv_once, lost_frame_nonce_not_reused (a frame whose socket write failed has consumed its counter value): kernel-checked over the model. ref_accepts_impl / impl_accepts_ref are discharged by the gcmformat engine: every frame real streams emit is opened by refcodec, refcodec-built frames are fed to the real receiver, counters near 2^32 via NewStreamWithCryptoState driven to the limit through every sending API (SendMessage, SendPartialMessage, WriteMessage flush, EndMessage, PutSecret, typed FlushFrame/FinishMessage) with the refusal judged on the bytes written to the connection; socket write failures (timeout / error / short write after every k bytes of a frame, through every sending API, first and later frames, keyed and imported sessions) followed by further sends, judged by refcodec on the bytes that reached the connection: later frames open at the next counter values, never under a consumed one, IV never announced again; IV freshness as an oracle on the implementation: base IVs of all key installations pairwise distinct also in their last 12 bytes, every byte position varying, every (key, 16-byte nonce) pair of the run used once across endpoints, directions, sessions and hand-offs. size_literals_are_the_code (the 16/16/32-byte sizes are the integer literals of stream.calculateEncryptedSize and message.maxFramePayload, regenerated on every run).",
         "level_note": "Distinct RNG draws are distinct (crypto/rand); symbolic AEAD in the model, real AES-256-GCM in the correspondence.",
         "assumptions": ["crypto/rand yields fresh IVs"],
     },
@@ -214,7 +214,7 @@ PROPS["C20"] = {'assumptions': ['crypto/rand draws do not repeat and cannot be g
  'level_note': 'Real scheduling is sampled, the theorems are over the event model (schedules = arbitrary event lists). A connection that presented the right '
                'id but lost (failure reply taken first, or another broker won) may stay open unreturned: observed and counted, not a clause of C20. '
                "Unguessability of the id is crypto/rand's; the model proves one own draw per attempt.",
- 'level_text': 'returns_only_matching, rogues_closed_never_returned (every arrival order and interleaving: the returned connection presented exactly the '
+ 'level_text': 'returns_only_matching, rogues_closed_never_returned (every arrival order and interleaving: the returned connection presented exactly the  proxied_ignores_reply_claim + broker_cannot_choose_id (in proxied mode the id expected in the hello is the requester's own, whatever the broker's reply names).'
                'generated id under CCB_REVERSE_CONNECT, everything else is closed and not returned), broker_failure_ends / broker_failure_genuine / '
                'attempt_result_final, proxied_returns_iff / proxied_failure_ends, dial_returns_only_matching (any number of brokers, any subset working, any '
                'completion order), at_most_one, id_fresh, connect_id_source (GenerateConnectID draws from crypto/rand and reads no package-level state: regenerated table), connect_id_origins (every ClaimId ccb/ puts on the wire or matches a hello against is traced to a GenerateConnectID call or to the ad received from the peer; math/rand only for the declared non-cryptographic uses), other_requests_id_never_returned: kernel-checked over the event model. Tied to the code by the ccb '
@@ -244,7 +244,7 @@ PROPS["C19"] = {'assumptions': ['net.Conn.Close makes a pending Read/Write retur
                'run; two cedar endpoints cannot complete SSL with each other, so SSL runs as the failing first method of a fallback and alone (ends in its own '
                'error). After the entry-guard fix the connection is closed at all three cancellation positions; in the stop() window the close is asynchronous '
                '(watcher goroutine).',
- 'level_text': 'unblocks (blocked => the context has not fired, any operation, any environment), cancelled_before, stall_cancel_during / stall_cancel_before /  no_contextless_blocking (regenerated table of calls in security/ to blocking APIs that take no context is within a justified allow-list: Kerberos GetServiceTicket is the one declared open site) + no_contextless_blocking_prefix_fails (the pre-fix table violates it).'
+ 'level_text': 'unblocks (blocked => the context has not fired, any operation, any environment), cancelled_before, stall_cancel_during / stall_cancel_before /  no_contextless_blocking (regenerated table of calls in security/ to blocking APIs that take no context is within a justified allow-list: Kerberos GetServiceTicket is the one declared open site) + no_contextless_blocking_prefix_fails (the pre-fix table violates it). fact_tables_not_vacuous (the regenerated I/O and context tables are inhabited and contain the two wrapped primitives).'
                "cancel_in_stop_window (every k, every prefix, both error kinds), plain_error_is_ctx (all-abort operations return exactly the context's error "
                'once it has fired), closed_on_cancel (Close has run or the watcher was started, all three positions), guard_without_close_leaves_open (record '
                'of the defect: before the fix the entry guard returned with the connection open), never_cancellable_adds_nothing / unfired_adds_nothing '
